@@ -228,6 +228,7 @@ WOPNFile *WOPN_LoadBankFromMem(void *mem, size_t length, int *error)
     WOPNBank *bankslots[2];
     uint16_t  bankslots_sizes[2];
     VERIF_GHOST(size_t verif_length0 = length;)
+    VERIF_ENTRY(wopn_load)
 
 #define SET_ERROR(err) \
 {\
@@ -505,6 +506,7 @@ int WOPN_SaveBankToMem(WOPNFile *file, void *dest_mem, size_t length, uint16_t v
     WOPNBank *bankslots[2];
     uint16_t  bankslots_sizes[2];
     VERIF_GHOST(size_t verif_length0 = length;)
+    VERIF_ENTRY(wopn_save)
 
     if(version == 0)
         version = wopn_latest_version;
